@@ -274,7 +274,7 @@ def gen_stream_data(rng, video_groups):
 IN_STREAM_IDS = ["CC1", "CC2", "CC3", "CC4"] + ["SERVICE%d" % i for i in range(1, 64)]
 
 
-def gen_master(rng, max_tags=6, plain=False, features=None, consistent=True):
+def gen_master(rng, max_tags=6, plain=False, features=None, consistent=True, fr3=False):
     lay = Layout(rng, plain)
     feats = features if features is not None else {}
 
@@ -319,7 +319,7 @@ def gen_master(rng, max_tags=6, plain=False, features=None, consistent=True):
         else:
             p = gen_stream_data(rng, groups["VIDEO"] if consistent else groups["VIDEO"] + ["zz"])
             if rng.random() < 0.4:
-                p.append(("FRAME-RATE", f32_literal(rng, signed=False)))
+                p.append(("FRAME-RATE", ("%d.%03d" % (rng.randint(0, 240), rng.randint(0, 999)) if rng.random() < 0.7 else rng.choice(["25", "29.97", "60", "23.976", "0.5", "120.0"])) if fr3 else f32_literal(rng, signed=False)))
             pool = (lambda t: groups[t] if consistent else groups[t] + ["zz"])
             if pool("AUDIO") and rng.random() < 0.5:
                 p.append(("AUDIO", q(rng.choice(pool("AUDIO")))))
